@@ -713,6 +713,14 @@ theorem annotate_after_strip_as_fresh (tool : String) (st : CdsState) (c : CdsRe
 theorem reannotate_after_strip (tool : String) (st : CdsState) (c : CdsRes) :
     c.annotate tool (c.annotate tool st).strip = c.annotate tool {} := rfl
 
+/-- the per-gene results come back in the saved order (the order of the genes along the regions),
+    whatever the gene names are: same key order in the re-saved JSON, domain features added gene by
+    gene in the same order -/
+theorem nrpsPks_regenerated_keeps_gene_order (r : ModRules) (ctx : Ctx) (x : NrpsPks) (hv : x.valid r ctx = true) :
+    ∃ y, NrpsPks.fromJson r ctx x.toJson = .reuse y ∧ y.cds.map (·.1) = x.cds.map (·.1)
+      ∧ y.toJson = x.toJson ∧ y.domainIds = x.domainIds :=
+  ⟨x, NrpsPks.fromJson_toJson r ctx x hv, rfl, rfl, rfl⟩
+
 /-! ### non-vacuity: the invariants hold on non-trivial concrete objects -/
 
 def exHit : HMMResult :=
@@ -823,5 +831,14 @@ example : let g := ({} : GeneFns).add ⟨.core, "t", "PKS_KS", some "T1PKS"⟩
 -- results saved for `scaffold` are not taken over by the renamed `scaffold_0`
 example : HmmerRes.fromJson ⟨"scaffold_0", [], none, some "scaffold"⟩ { exHmmer with recordId := "scaffold" }.toJson = .discard := by
   decide +kernel
+
+-- genes whose names do not sort in their order along the record: nrpsB lies before nrpsA
+def exOrder : NrpsPks := ⟨"rec1", [("nrpsB", ⟨[exHit], [], []⟩), ("nrpsA", ⟨[.mk "ACP" 5 60 ⟨1, -9⟩ ⟨3, 1⟩ []], [], []⟩)]⟩
+def exOrderCtx : Ctx := ⟨"rec1", ["nrpsA", "nrpsB"], none, none⟩
+example : exOrder.valid exRules exOrderCtx = true := by decide
+example : exOrder.domainIds = ["nrpspksdomains_nrpsB_PKS_KS.1", "nrpspksdomains_nrpsA_ACP.1"] := by decide +kernel
+example : ∃ y, NrpsPks.fromJson exRules exOrderCtx exOrder.toJson = .reuse y ∧ y.cds.map (·.1) = ["nrpsB", "nrpsA"] := by
+  obtain ⟨y, hy, ho, _⟩ := nrpsPks_regenerated_keeps_gene_order exRules exOrderCtx exOrder (by decide)
+  exact ⟨y, hy, ho⟩
 
 end ASV.C11
